@@ -17,8 +17,21 @@ CONFIG = {
                 "escapes, permuted/duplicate tags, multi-line bodies, malformed and non-UTF-8 input, truncated/mutated binary points), on boundary "
                 "timestamps of every precision (accepted => exact product in Z and in range, out of range => rejected, evaluated on what the implementation did), "
                 "and on real NodeProcessor.WriteShard calls from 1-8 goroutines whose queue is then drained and decoded. "
-                "Partial: the text round trip of whole lines (field set scanning, field iterator) is checked on the implementation per run, "
-                "proved only for the key and the timestamp.",
+                "print_parse_roundtrip: for EVERY well-formed abstract point (measurement, tags, typed fields int64|uint64|float bits|bool|string, optional timestamp; "
+                "names non-empty and not ending in a backslash, first name not starting with tab/NUL, tag keys distinct, values in range, key sizes within MaxKeyLength) "
+                "and every order of its tags, the text 'key fields [timestamp]' with the fields printed as Fields.MarshalBinary/appendField print them "
+                "(escape.String names, i/u suffixes, true/false, EscapeStringField strings, the AppendFloat text) is accepted by parsePoint, the point has the canonical key, "
+                "the field text as written and the exact instant, and Fields() returns exactly the typed fields (names, types, values/bits, order); "
+                "the same for every accepted spelling of the values (ten boolean spellings, [-]digits-with-at-most-one-dot floats such as 1. .5 -0); "
+                "fields_roundtrip: scanFields, the walkFields key-size pass and the field iterator agree on the boundaries of a rendered field set after any prefix "
+                "(keys with escaped , = space and quotes, doubled and trailing backslashes in strings, min/max integers, max unsigned, several fields in order); "
+                "accepted_line_reprints_stable_partial: String() of the point such a line parses to parses again to exactly the same point; "
+                "print_parse_roundtrip_request_partial: sent as the whole request to ParsePointsWithPrecision, a printed point without newline/quote/backslash that does not start with '#' yields exactly that one point (lines with quoted strings or escapes: only at the parsePoint level); "
+                "NOT proved: that statement for every byte string the parser accepts (redundant backslashes, adjacent quoted pieces, exponent floats, leading zeros: "
+                "those are checked per run on the real code by reparse_ok). The float text<->bits conversion is an oracle: the shape of the printed float text and "
+                "ParseFloat(text)=bits are hypotheses of wf_point. "
+                "Every run additionally BUILDS points from typed values with models.NewPoint (Fields.MarshalBinary/appendField), prints them with String(), compares the text with the model printer "
+                "(Print.v) and demands that the parsed text has the same field names, types and values/bits (case kind fprint).",
         "note": "Trusts Coq kernel (incl. primitive Uint63 for decoding case literals), genconsts, the harness; strconv.ParseFloat/AppendFloat enter "
                 "as an oracle (values recorded from the real strconv per case); time.Time binary layout of go1.23 mirrored, zones other than UTC not modelled; "
                 "slice capacity modelled only where the code relies on it (field iterator).",
@@ -29,11 +42,12 @@ CONFIG = {
     "n": {"quick": 1600, "thorough": 30000},
     "harness_timeout": {"quick": 900, "thorough": 3000},
     "shard": 350,
-    "extra_proof_files": ["TimeExact", "TimeLine", "HHWProofs"],
+    "extra_proof_files": ["TimeExact", "TimeLine", "HHWProofs", "FieldNum", "FieldScan", "FieldIter", "FieldAsm", "LineRound", "Reprint", "PlainReq"],
     "search_rounds": 2,
     "search_boost": 2,
     "rule": "corpus (witnesses of the 7 repaired defects, boundaries) then designed cases (numeric/time extremes, bool forms, duplicate and unsorted tags, "
             "comments/blank lines, quoted newlines, every binary field-set shape, framing limits, each escape function on 15 fixed strings; "
+            "numeric forms and near misses 1i2 +1 1. .1 1e5 -0 -0i 007i 1u -1u 1.5i 1..2, all ten boolean spellings, escaped field keys, adjacent quoted pieces; 12 designed fprint points: every field type, Min/MaxInt64, MaxUint64, -0, 1e21, strings with quotes/backslashes/trailing backslash/newline, keys made of , = space quote backslash and non-UTF-8 bytes; "
             "for each precision n,u,ms,s,m,h the timestamps floor(x/unit)+{-1,0,1} and their negatives for x in 2^63-1, 2^63, MaxNanoTime, k*2^64, k*2^64+-2^63 (k=1,2), "
             "zero/negative-zero/leading-zero/sign/19-20 digit/non-decimal texts; 4 concurrent hinted-handoff write sets) then seeded generation: "
             "50% ParsePointsWithPrecision bodies of 1-5 lines (structured valid lines rendered from an abstract point with random names over an alphabet rich in "
@@ -43,21 +57,25 @@ CONFIG = {
             "crafted field sets and time words), 10% 'm v=1 <ts>' lines (40% boundary values as above with k up to 4e6 and offset -3..3, 10% quotients of k*2^64 whose wrapped "
             "product is a small in-range value, 10% random 19-20 digit texts, 10% special/non-decimal texts, 10% any int64, 5% damaged decimal, 15% in-range incl. leading zeros; "
             "60% of them at u/ms/s/m/h), 5% hh.unmarshalWrite, 2.5% WriteShardRequest.Points + write to a real shard, 2.5% real hh.NodeProcessor.WriteShard "
-            "from 1-8 goroutines x 1-6 rounds with distinct batches (<= 240 points, string field 0-200 bytes), queue closed, reopened and drained, 7.5% the ten escape functions; "
-            "distinct = distinct input bytes+precision+default time; non-trivial = at least one accepted point (parse), >= 8 bytes (bin), an acknowledged batch (hhw), non-empty input (others)",
+            "from 1-8 goroutines x 1-6 rounds with distinct batches (<= 240 points, string field 0-200 bytes), queue closed, reopened and drained, 5% the ten escape functions, "
+            "5% fprint: models.NewPoint(\"m\", nil, Fields) with 1-4 distinct field names over the special alphabet and values of every type (special and random int64/uint64, finite floats within 1e-40..1e40 incl. -0 and integers beyond 2^53, booleans, strings over an alphabet of quote, backslash, comma, =, space, newline, NUL, non-UTF-8), String(), parse at precision n; "
+            "distinct = distinct input bytes+precision+default time; non-trivial = at least one accepted point (parse), >= 8 bytes (bin), an acknowledged batch (hhw), a point was built (fprint), non-empty input (others)",
     "trusted_base": [
+        "C12: strconv.AppendFloat(v,'f',-1,64) is an oracle for the model printer: per fprint case the harness records the text real strconv gives for each float field; the theorem print_parse_roundtrip assumes that text has the shape [-]digits[.digits] and that ParseFloat reads it back as the same bits",
+        "C12: fprint cases pass the fields to the model in sort.Strings order of their names (computed by the harness, checked to be strictly increasing by check_case); duplicate names cannot occur in a Go map",
         "C12: strconv.ParseFloat is an oracle: per case the harness records the float64 bits real strconv returns for every token the scanner or the field iterator can hand to it; integer and boolean parsing, decimal printing and FNV-64a are modelled exactly",
         "C12: case byte strings are written as primitive Uint63 literals (7 bytes each) and decoded inside vm_compute; the theorems do not use primitive integers",
-        "C12: per-point checks 'the printed point parses back to the same point' and 'NewPointFromBytes(MarshalBinary) / hh framing give the same point' are computed by the harness on the real code and enter check_case as booleans",
+        "C12: for accepted lines that are not a rendering of a well-formed point the per-point checks 'the printed point parses back to the same point' and 'NewPointFromBytes(MarshalBinary) / hh framing give the same point' are computed by the harness on the real code and enter check_case as booleans",
         "C12: time.Time (go1.23) sec/nsec/UnixNano/IsZero/MarshalBinary/UnmarshalBinary mirrored for UTC times; Truncate assumed to be floor to a multiple of the unit since the Unix epoch",
         "C12: hinted-handoff concurrency: goroutine interleavings are whatever the Go scheduler produces in the run (a race is looked for, not excluded); the queue (segments, Append/Current/Advance) is used as is and is property C04's subject; WriteShard's splitting of batches above the 10 MiB segment size is not exercised here (batches are small, checked in Coq against hh.defaultSegmentSize)",
         "C12: constants, precision tables and escape tables are regenerated from models/points.go, time.go, inline_fnv.go, pkg/escape/bytes.go by genconsts on every run; Spec.v keeps its own copies of the published FNV constants and precision units",
     ],
     "modelled": "models/points.go scanLine, skipWhitespace, scanKey (scanMeasurement, scanTags*, insertionSort, duplicate passes, key rebuild), scanFields, scanNumber, "
                 "scanBoolean, scanTime, scanTo, scanToSpaceOr, scanFieldValue, walkFields, parsePoint, ParsePointsWithPrecision, SafeCalcTime, SetPrecision, the field iterator "
-                "and Fields(), String/AppendString, HashID, MarshalBinary/UnmarshalBinary/NewPointFromBytes, escape pairs, pkg/escape, hh.marshalWrite/unmarshalWrite, "
-                "WriteShardRequest.unmarshalPoints, NodeProcessor.WriteShard for batches below the segment size (one marshalWrite block per call, concurrent calls in any order) are modelled (theories/C12/{Base,Escape,Scan,Point}.v); NewPoint/MakeKey/Tags()/Name()/Split/Round and the tsdb write path are not modelled",
-    "assumptions": ["strconv.ParseFloat(format(b)) = b is not needed by the proved theorems; float text enters only through the oracle",
+                "and Fields(), String/AppendString, Fields.MarshalBinary/appendField for int64/uint64/float64/bool/string values (Print.v), HashID, MarshalBinary/UnmarshalBinary/NewPointFromBytes, escape pairs, pkg/escape, hh.marshalWrite/unmarshalWrite, "
+                "WriteShardRequest.unmarshalPoints, NodeProcessor.WriteShard for batches below the segment size (one marshalWrite block per call, concurrent calls in any order) are modelled (theories/C12/{Base,Escape,Scan,Point}.v); NewPoint's validation, MakeKey (NewPoint is only exercised without tags), appendField for the other Go number types, Tags()/Name()/Split/Round and the tsdb write path are not modelled",
+    "assumptions": ["print_parse_roundtrip assumes, per float field, that strconv.AppendFloat(b,'f',-1,64) is [-]digits[.digits] and strconv.ParseFloat of it returns b (true of finite float64; not proved, float text enters only through the oracle pair)",
+                    "accepted spellings covered by the theorem: canonical decimal integers, [-]digits-with-one-optional-dot floats, the ten boolean spellings, strings escaped by EscapeStringField; exponent forms and redundant escapes are differential only",
                     "64-bit int (length prefixes of binary points are non-negative after conversion)",
                     "harness process runs with TZ such that no binary point in the generated stream uses the local zone other than UTC"],
 }
